@@ -470,6 +470,44 @@ def trace_facet(ctx, workdir):
 
 
 # ----------------------------------------------------------------------------------------------------------
+# growth beyond the listed property: batches written to disk (BatchQueue.tla)
+# ----------------------------------------------------------------------------------------------------------
+def batch_facet(ctx, workdir):
+    import glob
+    from cuqiverif import zoo
+    res = ctx.tlc("BatchQueue", cfg="BatchQueue.cfg", workers=4)
+    ctx.model_must_hold(res, "BatchQueue")
+    fac = zoo.stateful_factories()["MH"]
+    for c in res.cases:
+        b, n = c["b"], c["n"]
+        path = os.path.join(workdir, "batches_%d_%d" % (b, n)) + "/"
+        with zoo.quiet():
+            np.random.seed(11)
+            s = fac()
+            s.sample(n, batch_size=b, sample_path=path)
+        chain = _cols(s.get_samples().samples)
+        files = sorted(glob.glob(path + "batch_*.npz"))
+        ctx.case(("batch", b, n))
+        sig = "batch/b=%d" % b
+        if len(files) < len(c["dumped"]):
+            ctx.mismatch(sig + "/missing", dict(c), "fewer batch files than complete batches", len(c["dumped"]), len(files))
+            continue
+        for i, exp in enumerate(c["dumped"]):
+            z = np.load(files[i])
+            got = np.asarray(z["samples"], dtype=float)
+            want = chain[:, [k - 1 for k in exp]].T
+            if int(z["batch_id"]) != i or got.shape != want.shape or not np.array_equal(got, want):
+                ctx.mismatch(sig + "/content", dict(c, batch=i), "batch %d does not hold samples %s of the chain in order" % (i, exp), want, got)
+                break
+        if len(files) > len(c["dumped"]):
+            z = np.load(files[len(c["dumped"])])
+            want = chain[:, [k - 1 for k in c["pending"]]].T
+            if not np.array_equal(np.asarray(z["samples"], dtype=float), want):
+                ctx.mismatch(sig + "/tail", dict(c), "extra batch does not hold the pending samples", want, z["samples"])
+        ctx.observations.setdefault("partial_last_batch_flushed", {})["b=%d,n=%d" % (b, n)] = len(files) > len(c["dumped"])
+
+
+# ----------------------------------------------------------------------------------------------------------
 def _select(cases, rnd, limit):
     if limit is None or len(cases) <= limit:
         return cases
@@ -530,6 +568,7 @@ def run(ctx):
                 run_legacy(ctx, name, fac, N, Nb, 2000 + ctx.seed, list(range(Nb, N + Nb)), "sample_adapt")
         ctx.sample({"sampler": "legacy MH", "behaviour": legacy[-1]})
         trace_facet(ctx, workdir)
+        batch_facet(ctx, workdir)
     finally:
         import shutil
         shutil.rmtree(workdir, ignore_errors=True)
